@@ -124,7 +124,7 @@ class FilesystemLoader(Loader):
         debug("FilesystemLoader find starting at {!r}".format(self.start))
         spec = None
         module = "{}.py".format(name)
-        paths = self.start.split(os.sep)
+        paths = os.path.abspath(self.start).split(os.sep)
         try:
             # walk the path upwards to check for dynamic import
             for x in reversed(range(len(paths) + 1)):
